@@ -17,6 +17,8 @@ class Gen:
     def note(self, k):
         self.stats[k] = self.stats.get(k, 0) + 1
 
+    text_ids = ()
+
     def opaque(self, n):
         while True:
             b = self.rng.randbytes(n)
@@ -51,10 +53,11 @@ class Gen:
             n = self.length(depth)
             self.note(f'string-len-{"short" if n <= 253 else "long"}')
             s = ''.join(rng.choice('abcXYZ 019_-é漢') for _ in range(n))
-            while True:
-                if s.encode()[:4] not in self.known:
-                    return s
-                s = 'q' + s
+            if n >= 4 and self.text_ids and rng.random() < 0.08:
+                # a text that happens to begin with the four characters of a registered constructor id: it is text all the same (a `string` field never holds an object)
+                self.note('string-begins-with-constructor-id')
+                s = rng.choice(self.text_ids) + s[4:]
+            return s
         if t == 'bytes':
             if auto and depth < 3 and rng.random() < 0.25 and not self.raw_field:
                 self.note('bytes-nested-object')
@@ -205,7 +208,7 @@ def run(R):
               'auto_deserialize modes; registry ids/fields compared constructor by constructor; BlockId/BlockIdExt conversions and hashing. '
               'distinct = distinct (constructor, encoded bytes); non-trivial = constructor with at least one field')
     R.assumptions = ['R5 (lib/tlref.py): constructor id = CRC-32 of the declaration with single spaces, without ";", "(" and ")" (validated on 4 well-known ids and '
-                     'the pinned bytes of tests/test_tl.py)', 'opaque bytes/strings are generated so that their first four bytes are not a registered constructor id',
+                     'the pinned bytes of tests/test_tl.py)', 'opaque bytes (not strings) are generated so that their first four bytes are not a registered constructor id: with auto_deserialize a bytes field that parses as an object is returned as the object, by design',
                      'constructors using vector<T>, double, object/function or a flag variable not named mode/flags are classified unsupported and skipped (counted)']
     lib_auto = TlGenerator.with_default_schemas().generate()
     lib_raw = TlGenerator.with_default_schemas().generate()
@@ -240,6 +243,8 @@ def run(R):
     # ---- codec
     G = Gen(codec, rng, known)
     G.untouchable = {(n, f) for n, fs in lib_auto.untouchables.items() for f in fs}
+    G.text_ids = sorted({k.decode() for k in known if len(k) == 4 and all(32 <= b < 127 for b in k)})
+    R.extra['constructor_ids_that_are_printable_text'] = len(G.text_ids)
     per = 30 if quick else 500
     mine = [n for i, n in enumerate(supported) if i % R.nshards == R.shard]
     for name in mine:
